@@ -18,6 +18,49 @@ theorem vsum_tab (n : Nat) (f : Nat → Rat) : vsum (tab n f) = sumTo n f := by
   apply sumTo_congr; intro k hk
   simp [hk]
 
+/-- row sums of the regularised matrix: `(A + reg/n 1 1ᵀ) 1 = A 1 + reg` -/
+theorem rowSums_regularized (a : Mat) (reg : Rat) {i : Nat} (hi : i < a.nRow) (hn : a.nCol ≠ 0) :
+    vget (regularized a reg).rowSums i = vget a.rowSums i + reg := by
+  have hn' : (a.nCol : Rat) ≠ 0 := by exact_mod_cast hn
+  unfold Mat.rowSums regularized
+  rw [Mat.vget_mulVec, Mat.vget_mulVec]
+  simp only [Mat.add_nCol]
+  have : sumTo a.nCol (fun k => (a.add (Mat.const a.nRow a.nCol (reg / (a.nCol : Rat)))).get i k * vget (ones a.nCol) k)
+      = sumTo a.nCol (fun k => a.get i k * vget (ones a.nCol) k + reg / (a.nCol : Rat)) := by
+    apply sumTo_congr; intro k hk
+    rw [Mat.get_add (by simp) (by simp)]
+    simp [hi, hk]
+  rw [this, sumTo_add, sumTo_const, mul_comm, div_mul_cancel₀ _ hn']
+
+theorem get_regularized (a : Mat) (reg : Rat) {i j : Nat} (hi : i < a.nRow) (hj : j < a.nCol) :
+    (regularized a reg).get i j = a.get i j + reg / (a.nCol : Rat) := by
+  unfold regularized
+  rw [Mat.get_add (by simp) (by simp)]
+  simp [hi, hj]
+
+/-- `diag(w) · A · diag(w)` by entries -/
+theorem get_diag_mul_diag (w : Vec) (a : Mat) (hsq : a.nCol = a.nRow) {i j : Nat} (hi : i < a.nRow) (hj : j < a.nRow) :
+    ((Mat.diag a.nRow w).mul (a.mul (Mat.diag a.nRow w))).get i j = vget w i * a.get i j * vget w j := by
+  rw [Mat.get_mul, Mat.diag_nCol]
+  simp only [Mat.get_diag, Mat.get_mul, hsq]
+  rw [show (fun k => (if i < a.nRow ∧ i = k then vget w i else 0) *
+            sumTo a.nRow (fun l => a.get k l * if l < a.nRow ∧ l = j then vget w l else 0))
+        = (fun k => if i = k then vget w i *
+            sumTo a.nRow (fun l => a.get k l * if l < a.nRow ∧ l = j then vget w l else 0) else 0) from by
+      funext k
+      by_cases h1 : i = k
+      · subst h1; simp [hi]
+      · simp [h1]]
+  rw [sumTo_ite_eq', if_pos hi]
+  rw [show (fun l => a.get i l * if l < a.nRow ∧ l = j then vget w l else 0)
+        = (fun l => if l = j then a.get i l * vget w l else 0) from by
+      funext l
+      by_cases h1 : l = j
+      · subst h1; simp [hj]
+      · simp [h1]]
+  rw [sumTo_ite_eq, if_pos hj]
+  ring
+
 /-! ### Normalizer -/
 
 namespace Normalizer
@@ -173,16 +216,7 @@ theorem init_dense (a : Mat) (reg : Rat) (hreg : 0 ≤ reg) :
     rw [Mat.get_scaleRows]
     unfold init
     simp only [vget_pinvVec, vget_tab, hi, if_true]
-    have hrs : vget (regularized a reg).rowSums i = vget a.rowSums i + reg := by
-      unfold Mat.rowSums regularized
-      rw [Mat.vget_mulVec, Mat.vget_mulVec]
-      simp only [Mat.add_nCol]
-      have : sumTo a.nCol (fun k => (a.add (Mat.const a.nRow a.nCol (reg / (a.nCol : Rat)))).get i k * vget (ones a.nCol) k)
-          = sumTo a.nCol (fun k => a.get i k * vget (ones a.nCol) k + reg / (a.nCol : Rat)) := by
-        apply sumTo_congr; intro k hk
-        rw [Mat.get_add (by simp) (by simp)]
-        simp [hi, hk]
-      rw [this, sumTo_add, sumTo_const, mul_comm, div_mul_cancel₀ _ hn]
+    have hrs := rowSums_regularized a reg hi (by omega : a.nCol ≠ 0)
     rw [hrs]
     unfold regularized
     rw [Mat.get_add (by simp) (by simp)]
@@ -195,4 +229,276 @@ theorem init_dense (a : Mat) (reg : Rat) (hreg : 0 ≤ reg) :
       Mat.get_of_not_lt (a := rowNormalized (regularized a reg)) (by show ¬ (i < a.nRow ∧ j < a.nCol); exact hij)]
 
 end Normalizer
+/-! ### Laplacian -/
+
+namespace Laplacian
+
+@[simp] theorem dense_nRow (l : Laplacian) : l.dense.nRow = l.lap.nRow := rfl
+@[simp] theorem dense_nCol (l : Laplacian) : l.dense.nCol = l.lap.nRow := rfl
+
+theorem get_dense (l : Laplacian) {i j : Nat} (hi : i < l.lap.nRow) (hj : j < l.lap.nRow) :
+    l.dense.get i j = vget l.dvec i * (l.lap.get i j +
+      (if l.reg > 0 then l.reg * ((if i = j then 1 else 0) - 1 / (l.lap.nRow : Rat)) else 0)) * vget l.dvec j := by
+  unfold dense; rw [Mat.get_ofFn]; simp [hi, hj]
+
+/-- `scale` multiplies by `dvec` (the identity when the Laplacian is not normalised) -/
+theorem vget_scale (l : Laplacian) (v : Vec) (hv : v.length = l.lap.nRow) (i : Nat) :
+    vget (l.scale v) i = vget l.dvec i * vget v i := by
+  unfold scale dvec
+  cases l.normDiag with
+  | some d =>
+    simp only [vget_tab]
+    by_cases h : i < l.lap.nRow
+    · simp [h]
+    · have hz : vget v i = 0 := vget_of_ge (by omega)
+      simp [h, hz]
+  | none =>
+    simp only [vget_ones]
+    by_cases h : i < l.lap.nRow
+    · simp [h]
+    · have hz : vget v i = 0 := vget_of_ge (by omega)
+      simp [h, hz]
+
+theorem scale_length (l : Laplacian) (v : Vec) (hv : v.length = l.lap.nRow) : (l.scale v).length = l.lap.nRow := by
+  unfold scale
+  cases l.normDiag with
+  | some d => simp
+  | none => simpa using hv
+
+/-- **`_matvec` of a Laplacian is the product by its dense matrix** (square `laplacian` attribute) -/
+theorem matvec_eq_dense (l : Laplacian) (v : Vec) (hsq : l.lap.nCol = l.lap.nRow) (hv : v.length = l.lap.nRow) :
+    l.matvec v = l.dense.mulVec v := by
+  have hl1 := scale_length l v hv
+  have hp : ∀ w : Vec, w.length = l.lap.nRow → (l.scale w).length = l.lap.nRow := fun w hw => scale_length l w hw
+  have hlen : (l.matvec v).length = l.lap.nRow := by
+    unfold matvec
+    by_cases hr : l.reg > 0
+    · simp only [hr, if_true]; exact hp _ (by simp)
+    · simp only [hr, if_false]; exact hp _ (by simp)
+  apply vec_ext (by rw [hlen]; simp)
+  intro i hi
+  rw [hlen] at hi
+  rw [Mat.vget_mulVec, dense_nCol]
+  have e : sumTo l.lap.nRow (fun j => l.dense.get i j * vget v j)
+      = sumTo l.lap.nRow (fun j => vget l.dvec i * (l.lap.get i j * (vget l.dvec j * vget v j)
+          + (if l.reg > 0 then l.reg * ((if i = j then vget l.dvec j * vget v j else 0)
+              - 1 / (l.lap.nRow : Rat) * (vget l.dvec j * vget v j)) else 0))) := by
+    apply sumTo_congr; intro j hj
+    rw [get_dense l hi hj]
+    by_cases hr : l.reg > 0 <;> by_cases hij : i = j <;> simp [hr, hij] <;> ring
+  rw [e, sumTo_mul_left, sumTo_add]
+  unfold matvec
+  by_cases hr : l.reg > 0
+  · simp only [hr, if_true]
+    rw [vget_scale l _ (by simp), vget_tab, if_pos hi, Mat.vget_mulVec, hsq, sumTo_mul_left, sumTo_sub,
+      sumTo_ite_eq', if_pos hi, sumTo_mul_left]
+    have e2 : sumTo l.lap.nRow (fun j => l.lap.get i j * vget (l.scale v) j)
+        = sumTo l.lap.nRow (fun j => l.lap.get i j * (vget l.dvec j * vget v j)) :=
+      sumTo_congr (fun j _ => by rw [vget_scale l v hv])
+    have e3 : vmean (l.scale v) = 1 / (l.lap.nRow : Rat) * sumTo l.lap.nRow (fun j => vget l.dvec j * vget v j) := by
+      unfold vmean vsum
+      rw [hl1]
+      rw [sumTo_congr (fun j _ => vget_scale l v hv j)]
+      ring
+    rw [e2, e3, vget_scale l v hv]
+  · simp only [hr, if_false]
+    rw [vget_scale l _ (by simp), Mat.vget_mulVec, hsq]
+    have e2 : sumTo l.lap.nRow (fun j => l.lap.get i j * vget (l.scale v) j)
+        = sumTo l.lap.nRow (fun j => l.lap.get i j * (vget l.dvec j * vget v j)) :=
+      sumTo_congr (fun j _ => by rw [vget_scale l v hv])
+    rw [e2]; simp
+
+theorem dvec_transpose (l : Laplacian) (hsq : l.lap.nCol = l.lap.nRow) : l.transpose.dvec = l.dvec := by
+  unfold dvec transpose
+  cases l.normDiag with
+  | some d => rfl
+  | none => simp [hsq]
+
+/-- **the transposed Laplacian denotes the transposed matrix** -/
+theorem transpose_dense (l : Laplacian) (hsq : l.lap.nCol = l.lap.nRow) :
+    Mat.Eqv l.transpose.dense l.dense.transpose := by
+  have hn : l.transpose.lap.nRow = l.lap.nRow := hsq
+  refine ⟨hn, hn, fun i j => ?_⟩
+  rw [Mat.get_transpose]
+  by_cases hij : i < l.lap.nRow ∧ j < l.lap.nRow
+  · obtain ⟨hi, hj⟩ := hij
+    rw [get_dense _ (by rw [hn]; exact hi) (by rw [hn]; exact hj), get_dense _ hj hi, dvec_transpose l hsq, hn]
+    have e1 : l.transpose.lap.get i j = l.lap.get j i := by show l.lap.transpose.get i j = _; simp
+    have e2 : l.transpose.reg = l.reg := rfl
+    rw [e1, e2]
+    by_cases hr : l.reg > 0 <;> by_cases h : i = j
+    · subst h; simp [hr]
+    · have h' : ¬ j = i := fun e => h e.symm
+      simp [hr, h, h']; ring
+    · subst h; simp [hr]
+    · simp [hr]; ring
+  · rw [Mat.get_of_not_lt (a := l.transpose.dense) (by show ¬ (i < l.transpose.lap.nRow ∧ j < l.transpose.lap.nRow); rw [hn]; exact hij),
+      Mat.get_of_not_lt (a := l.dense) (by show ¬ (j < l.lap.nRow ∧ i < l.lap.nRow); exact fun c => hij ⟨c.2, c.1⟩)]
+
+theorem init_square {a : Mat} {reg : Rat} {nz : Bool} {sq : Vec} {l : Laplacian}
+    (h : init a reg nz sq = .ok l) : l.lap.nCol = l.lap.nRow ∧ l.lap.nRow = a.nRow ∧ a.nCol = a.nRow := by
+  unfold init at h
+  split at h
+  · cases h
+  · rename_i hsq
+    have hsq' : a.nRow = a.nCol := not_not.mp hsq
+    cases h
+    exact ⟨by simp [hsq'], rfl, hsq'.symm⟩
+
+/-- the unnormalised regularised Laplacian `D' - A'`, `A' = A + reg/n 1 1ᵀ`, `D' = diag(A' 1)` -/
+def regLap (a : Mat) (reg : Rat) : Mat :=
+  (Mat.diag a.nRow (regularized a reg).rowSums).sub (regularized a reg)
+
+theorem get_regLap (a : Mat) (reg : Rat) (hsq : a.nCol = a.nRow) {i j : Nat} (hi : i < a.nRow) (hj : j < a.nRow) :
+    (regLap a reg).get i j = (if i = j then vget a.rowSums i + reg else 0) - (a.get i j + reg / (a.nRow : Rat)) := by
+  unfold regLap
+  rw [Mat.get_sub (by simp [regularized]) (by simp [regularized, hsq]), Mat.get_diag,
+    get_regularized a reg hi (by omega), hsq]
+  by_cases h : i = j
+  · subst h
+    simp only [hi, and_self, if_true]
+    rw [rowSums_regularized a reg hi (by omega)]
+  · simp [h]
+
+/-- **the constructor gives the documented matrix**: `D' - A'` for the regularised adjacency, and
+    `N (D' - A') N` with `N = diag(1/sqrt)⁺` when normalised (`sq` = the square roots, external), `reg ≥ 0` -/
+theorem init_dense {a : Mat} {reg : Rat} {nz : Bool} {sq : Vec} {l : Laplacian}
+    (h : init a reg nz sq = .ok l) (hreg : 0 ≤ reg) :
+    Mat.Eqv l.dense (if nz then (Mat.diag a.nRow (pinvVec sq)).mul ((regLap a reg).mul (Mat.diag a.nRow (pinvVec sq)))
+      else regLap a reg) := by
+  obtain ⟨-, hn, hsq⟩ := init_square h
+  unfold init at h
+  split at h
+  · cases h
+  · cases h
+    have hshape : ∀ m : Mat, m = (if nz then (Mat.diag a.nRow (pinvVec sq)).mul ((regLap a reg).mul (Mat.diag a.nRow (pinvVec sq)))
+        else regLap a reg) → m.nRow = a.nRow ∧ m.nCol = a.nRow := by
+      intro m hm; subst hm
+      cases nz <;> simp [regLap]
+    obtain ⟨hr, hc⟩ := hshape _ rfl
+    refine ⟨by rw [hr]; rfl, by rw [hc]; rfl, fun i j => ?_⟩
+    by_cases hij : i < a.nRow ∧ j < a.nRow
+    · obtain ⟨hi, hj⟩ := hij
+      rw [get_dense _ (by exact hi) (by exact hj)]
+      have hlap : ((Mat.diag a.nRow (a.mulVec (ones a.nRow))).sub a).get i j
+          = (if i = j then vget a.rowSums i else 0) - a.get i j := by
+        have hw : a.mulVec (ones a.nRow) = a.rowSums := by unfold Mat.rowSums; rw [hsq]
+        rw [Mat.get_sub (by simp) (by simp [hsq]), Mat.get_diag, hw]
+        by_cases e : i = j
+        · subst e; simp only [hi, and_self, if_true]
+        · simp only [e, and_false, if_false]
+      have hK : (if reg > 0 then reg * ((if i = j then 1 else 0) - 1 / (a.nRow : Rat)) else 0)
+          = reg * ((if i = j then 1 else 0) - 1 / (a.nRow : Rat)) := by
+        by_cases hr : reg > 0
+        · simp [hr]
+        · have : reg = 0 := le_antisymm (not_lt.mp hr) hreg
+          subst this; simp
+      show vget (Laplacian.dvec _) i * (_ + _) * vget (Laplacian.dvec _) j = _
+      simp only [Mat.diag_nRow, Mat.sub_nRow]
+      rw [hlap, hK]
+      cases nz with
+      | false =>
+        simp only [Bool.false_eq_true, if_false]
+        rw [get_regLap a reg hsq hi hj]
+        unfold dvec
+        simp only [vget_ones, Mat.sub_nRow, Mat.diag_nRow, hi, hj, if_true]
+        by_cases e : i = j
+        · subst e; simp only [if_true]; ring
+        · simp only [e, if_false]; ring
+      | true =>
+        simp only [if_true]
+        have := get_diag_mul_diag (pinvVec sq) (regLap a reg) (by simp [regLap, regularized, hsq]) (i := i) (j := j)
+          (by simpa [regLap] using hi) (by simpa [regLap] using hj)
+        simp only [regLap, Mat.sub_nRow, Mat.diag_nRow] at this
+        rw [show (Mat.diag a.nRow (pinvVec sq)).mul
+              (((Mat.diag a.nRow (regularized a reg).rowSums).sub (regularized a reg)).mul (Mat.diag a.nRow (pinvVec sq)))
+            = (Mat.diag a.nRow (pinvVec sq)).mul ((regLap a reg).mul (Mat.diag a.nRow (pinvVec sq))) from rfl] at this
+        rw [this]
+        have := get_regLap a reg hsq hi hj
+        simp only [regLap] at this
+        rw [this]
+        unfold dvec
+        simp only
+        by_cases e : i = j
+        · subst e; simp only [if_true]; ring
+        · simp only [e, if_false]; ring
+    · rw [Mat.get_of_not_lt (by exact hij), Mat.get_of_not_lt (by rw [hr, hc]; exact hij)]
+
+end Laplacian
+
+/-! ### CoNeighbor -/
+
+namespace CoNeighbor
+
+/-- inner dimensions of `backward · forward` agree (kept by every operation) -/
+def WF (c : CoNeighbor) : Prop := c.backward.nCol = c.forward.nRow
+
+/-- **`_matvec` of a CoNeighbor is the product by `backward · forward`** -/
+theorem matvec_eq_dense (c : CoNeighbor) (v : Vec) : c.matvec v = c.dense.mulVec v := by
+  unfold matvec dense
+  rw [Mat.mulVec_mul]
+
+theorem matmat_eqv_dense (c : CoNeighbor) (x : Mat) : Mat.Eqv (c.backward.mul (c.forward.mul x)) (c.dense.mul x) :=
+  (Mat.mul_assoc c.backward c.forward x).symm
+
+theorem init_ok {a : Mat} {nz : Bool} {c : CoNeighbor} (h : init a nz = .ok c) :
+    c = ⟨a, if nz then normalize1 a.transpose else a.transpose⟩ := by
+  unfold init at h
+  split at h
+  · cases h
+  · cases h; rfl
+
+theorem init_wf {a : Mat} {nz : Bool} {c : CoNeighbor} (h : init a nz = .ok c) : c.WF := by
+  rw [init_ok h]; unfold WF
+  cases nz <;> simp [normalize1, scaleRows]
+
+/-- **the constructor gives `A F⁺ Aᵀ`** (`F` = column sums of `|A|` when normalised, else the identity) -/
+theorem init_dense {a : Mat} {nz : Bool} {c : CoNeighbor} (h : init a nz = .ok c) :
+    Mat.Eqv c.dense (if nz then a.mul ((Mat.diag a.nCol (pinvVec (colAbsSums a))).mul a.transpose)
+      else a.mul a.transpose) := by
+  rw [init_ok h]
+  cases nz with
+  | false => exact Mat.Eqv.refl _
+  | true =>
+    simp only [if_true]
+    unfold dense
+    apply Mat.Eqv.mul (Mat.Eqv.refl a)
+    unfold normalize1 norms1 colAbsSums
+    exact (Mat.diag_mul _ a.transpose).symm
+
+theorem mul_dense (c : CoNeighbor) (k : Rat) : (c.mul k).WF = c.WF ∧ Mat.Eqv (c.mul k).dense (c.dense.smul k) :=
+  ⟨rfl, Mat.mul_smul k c.backward c.forward⟩
+
+theorem neg_dense (c : CoNeighbor) : Mat.Eqv c.neg.dense c.dense.neg := by
+  refine (Mat.mul_smul (-1) c.backward c.forward).trans ⟨rfl, rfl, fun i j => ?_⟩
+  rw [Mat.get_smul, Mat.get_neg]
+  show -1 * c.dense.get i j = - c.dense.get i j
+  ring
+
+theorem transpose_wf {c : CoNeighbor} (h : c.WF) : c.transpose.WF := by
+  unfold WF transpose at *; simp [h]
+
+theorem transpose_dense {c : CoNeighbor} (h : c.WF) : Mat.Eqv c.transpose.dense c.dense.transpose :=
+  (Mat.transpose_mul c.backward c.forward h).symm
+
+theorem leftDot_dense {m : Mat} {c t : CoNeighbor} (hw : c.WF) (h : leftDot m c = .ok t) :
+    t.WF ∧ m.nCol = c.backward.nRow ∧ Mat.Eqv t.dense (m.mul c.dense) := by
+  unfold leftDot at h
+  obtain ⟨b, hb, h⟩ := bind_eq_ok h
+  obtain ⟨hd, rfl⟩ := Mat.mul?_ok hb
+  have := pure_eq_ok h
+  subst this
+  exact ⟨hw, hd, Mat.mul_assoc m c.backward c.forward⟩
+
+theorem rightDot_dense {m : Mat} {c t : CoNeighbor} (hw : c.WF) (h : c.rightDot m = .ok t) :
+    t.WF ∧ c.forward.nCol = m.nRow ∧ Mat.Eqv t.dense (c.dense.mul m) := by
+  unfold rightDot at h
+  obtain ⟨f, hf, h⟩ := bind_eq_ok h
+  obtain ⟨hd, rfl⟩ := Mat.mul?_ok hf
+  have := pure_eq_ok h
+  subst this
+  exact ⟨hw, hd, (Mat.mul_assoc c.backward c.forward m).symm⟩
+
+end CoNeighbor
+
 end SkNet.LinOp
